@@ -262,8 +262,36 @@ def gen_nested(rng, *, depth=2, callbacks=True, max_n=7):
                 cand = wrap_system(scn, s["name"], f"w{k}")
                 if all_levels_acyclic(cand):
                     scn = cand
+        if systems(scn) and rng.random() < 0.3:
+            cand = add_passthrough(scn, rng)
+            if cand is not None and all_levels_acyclic(cand) and device_rank(cand) is not None:
+                scn = cand
         if systems(scn) and all_levels_acyclic(scn) and device_rank(scn) is not None:
             return scn
+    return scn
+
+
+def add_passthrough(scn, rng):
+    """a system input that is exposed STRAIGHT THROUGH (`expose: {pt: external:x}`, possibly with no inner listener at
+    all) and read by a new device outside the system"""
+    tops = [c for c in scn["components"] if c["kind"] == "sys" and c.get("inputs")]
+    if not tops:
+        return None
+    scn = copy.deepcopy(scn)
+    sysc = rng.choice([c for c in scn["components"] if c["kind"] == "sys" and c.get("inputs")])
+    x = rng.choice(sorted(sysc["inputs"]))
+    y = f"pt_{x}"
+    sysc.setdefault("expose", {})[y] = [EXTERNAL, x]
+    if rng.random() < 0.4:
+        # ... and nobody inside listens to x any more
+        for c in sysc["components"]:
+            for q, src in list(c.get("inputs", {}).items()):
+                if src == [EXTERNAL, x]:
+                    del c["inputs"][q]
+    k = sum(1 for c, _, _ in walk(scn["components"]) if c["name"].startswith("pt"))
+    sink = {"name": f"pt{k}", "kind": "dev", "inputs": {"i": [sysc["name"], y]}, "beh": gen_beh(rng, 1, callbacks=False)}
+    i = scn["components"].index(sysc)
+    scn["components"].insert(i + 1, sink)
     return scn
 
 
